@@ -353,29 +353,40 @@ def rule_unknown_names(ctx, rule='R13.u'):
 
 
 def rule_iterpairs(ctx, rule='R13.i'):
-    """MatrixArray.iterpairs yields each unordered pair once: predicate truth table over (i<j, i==j, i>j)"""
+    """MatrixArray.iterpairs yields each unordered pair exactly once, in row-major order, with the pair's own indices,
+    type labels and pair function: the real generator is abstractly executed for rank 1..4 (the range the property
+    names) and the yielded sequence is compared with the upper (or lower) triangle"""
     cls = ctx.prog.cls(MA)
     m = cls.find_method('iterpairs')
-    op = NAT.iterpairs_filter_from_source(cls)
-    tests = [n for n in ast.walk(m.node) if isinstance(n, ast.If)]
-    yields = [n for n in ast.walk(m.node) if isinstance(n, ast.Yield)]
-    fors = [n for n in ast.walk(m.node) if isinstance(n, ast.For)]
-    ok_iter = len(fors) == 1 and ast.unparse(fors[0].iter).replace(' ', '') in (
-        'product(range(self.rank),range(self.rank))',)
-    table = {'i<j': op in ('<=', '<'), 'i==j': op in ('<=', '>='), 'i>j': op in ('>=', '>')} if op else None
-    if op is None or len(tests) != 1 or len(yields) != 1 or not ok_iter:
-        ctx.undecided(rule, MA + '.iterpairs', 'iteration idiom not recognised (product of two ranges filtered by one index comparison)', m.loc())
+    bad = []
+    tables = {}
+    try:
+        for rank in (1, 2, 3, 4):
+            got = NAT.enumerate_iterpairs(ctx.prog, cls, rank)
+            pairs = [(i, j) for i, j, _, _ in got]
+            upper = [(i, j) for i in range(rank) for j in range(rank) if i <= j]
+            lower = [(i, j) for i in range(rank) for j in range(rank) if i >= j]
+            tables[rank] = pairs
+            if pairs != upper and pairs != lower:
+                miss = sorted(set(upper) - {tuple(sorted(p)) for p in pairs})
+                dup = sorted({p for p in pairs if pairs.count(p) > 1})
+                bad.append('rank %d: yields %s -- %s' % (rank, pairs, ('unordered pairs never visited: %s' % miss) if miss else
+                                                        ('pairs visited twice: %s' % dup) if dup else 'not a triangle in row-major order'))
+                break
+            if not all(l for _, _, l, _ in got):
+                bad.append('rank %d: the labels yielded with (i,j) are not (types[i], types[j])' % rank)
+                break
+            if not all(o for _, _, _, o in got):
+                bad.append('rank %d: the array yielded with (i,j) is not the view self.data[:,i,j]' % rank)
+                break
+    except (Unsupported, Raised) as e:
+        ctx.undecided(rule, MA + '.iterpairs', str(e), m.loc())
         return
-    y = yields[0].value
-    shape_ok = isinstance(y, ast.Tuple) and len(y.elts) == 3 and \
-        ast.unparse(y.elts[2]).replace(' ', '') in ('self.data[:,i,j]',)
-    if table != {'i<j': True, 'i==j': True, 'i>j': False} and table != {'i<j': False, 'i==j': True, 'i>j': True}:
-        ctx.violation(rule, MA + '.iterpairs', 'triangle', 'predicate i%sj does not visit every unordered pair exactly once: %s' % (op, table), m.loc())
-    elif not shape_ok:
-        ctx.violation(rule, MA + '.iterpairs', 'yield', 'does not yield ((i,j),(type_i,type_j),data[:,i,j])', m.loc())
+    if bad:
+        ctx.violation(rule, MA + '.iterpairs', 'triangle', '; '.join(bad), m.loc())
     else:
-        ctx.holds(rule, MA + '.iterpairs', 'product(range(rank),range(rank)) filtered by i%sj: each unordered pair once, with its own pair function' % op,
-                  m.loc(), sample={'truth_table': table})
+        ctx.holds(rule, MA + '.iterpairs', 'each unordered pair once, in row-major order, with its own labels and pair-function view '
+                  '(generator abstractly executed for rank 1..4)', m.loc(), sample={'rank 3': tables.get(3)})
 
 
 def rule_identity(ctx, rule='R13.I'):
@@ -394,6 +405,13 @@ def rule_identity(ctx, rule='R13.I'):
                                                          'self.data[:,%s,%s]=1' % (lp.target.id, lp.target.id))
         # the zero fill must precede the loop
         ok = ok and body.index(lp) > [i for i, s in enumerate(src) if s.startswith('self.data=np.zeros')][-1]
+    elif bool(zeros) and not loops:
+        # second accepted idiom: one identity matrix broadcast over the zero array
+        bc = [i for i, s_ in enumerate(src) if s_ in ('self.data[:,:,:]=np.identity(rank)', 'self.data[:]=np.identity(rank)',
+                                                      'self.data[...]=np.identity(rank)', 'self.data[:,:,:]=np.eye(rank)',
+                                                      'self.data[:]=np.eye(rank)', 'self.data[...]=np.eye(rank)',
+                                                      'self.data+=np.identity(rank)', 'self.data+=np.eye(rank)')]
+        ok = len(bc) == 1 and bc[0] > [i for i, s_ in enumerate(src) if s_.startswith('self.data=np.zeros')][-1]
     sup = [s for s in src if s.startswith('super(IdentityMatrixArray,self).__init__(') or s.startswith('super().__init__(')]
     if ok and sup:
         ctx.holds(rule, cls.qualname, 'zeros((length,rank,rank)) then data[:,i,i]=1 for i in range(rank); space/types passed to MatrixArray.__init__', m.loc())
